@@ -623,6 +623,8 @@ class Interp:
 
     # ------------------------------------------------------------------
     def binop(self, op, a, b):
+        if isinstance(op, ast.MatMult) and isinstance(a, AObj):
+            return self.obj_method(a, "__matmul__", [b], {})
         if isinstance(op, ast.MatMult):
             return matmul(a, b)
         if isinstance(a, AArr) or isinstance(b, AArr):
@@ -894,6 +896,8 @@ class Interp:
                 if k in vals:
                     setattr(obj, k, vals[k])
             return None
+        if name == "__class__" and self.ctor_model is not None:
+            return self.ctor_model(self, obj.cls, list(args), kw)
         m = self.find_method(obj, name)
         if m is None:
             raise AttributeErrorSim(name)
